@@ -396,6 +396,7 @@ func kinds(seed int64) []kind {
 		ks = append(ks, kind{"pbrsa.verifier", func(round int) []namedCall {
 			blind := new(big.Int).SetBytes(seedOf(round, 7, 64))
 			blind.Mod(blind, pbKey.N)
+			blind.SetBit(blind, 0, 1) // (the seed bytes are all zero in one round)
 			inv := new(big.Int).ModInverse(blind, pbKey.N)
 			if inv == nil {
 				vlib.Die("blind not invertible")
